@@ -24,7 +24,7 @@ MANIFEST = {
             "sector writes are not simulated). The application's own database (ABI Commit happens before the engine write) is C16's. "
             "Trusted: Coq kernel + vm_compute, harness projection of DB keys, Python glue.",
 }
-IMPORTS = "From LE Require Import Chain.Crash Corr.C13."
+IMPORTS = "From LE Require Import Chain.Crash Chain.CrashFinite Corr.C13."
 
 
 class Intern:
@@ -97,14 +97,15 @@ def cop_term(it, r):
         elif k not in a:
             cs.append("(%d, None)" % it.code("k:state" + k[1]))
     cs = "[" + "; ".join(cs) + "]"
-    if r["op"] in ("add", "add_invalid"):
+    if r["op"] in ("add", "add_invalid", "restore"):
         diff = val(it, a[("diff", str(h))]) if ("diff", str(h)) in a else 0
         prune = sorted(int(k[1]) for k in b if k[0] == "diff" and k not in a)
         evprune = sorted(int(k[1]) for k in b if k[0] == "events" and k not in a)
         ev = val(it, a[("events", str(h))]) if ("events", str(h)) in a else None
         fin = int(a[("fin", "0")]["v"]) if ("fin", "0") in a else 0
-        return "(CAdd (mkAdd %s %d %d %s %d %s %s %s %d %s false))" % (
-            cbool(r["expect_ok"]), idc, h, cs, diff, clist(prune), cbool(("body", r["id"]) in a), opt(ev), fin, clist(evprune))
+        return "(CAdd (mkAdd %s %d %d %s %d %s %s %s %d %s %s))" % (
+            cbool(r["expect_ok"]), idc, h, cs, diff, clist(prune), cbool(("body", r["id"]) in a), opt(ev), fin, clist(evprune),
+            cbool(r.get("rt", False)))
     tmp = val(it, a[("temp", str(h))]) if (r["save"] and ("temp", str(h)) in a) else None
     return "(CDel (mkDel %s %d %d %s %s %s))" % (cbool(r["expect_ok"]), idc, h, cs, cbool(("body", r["id"]) in b), opt(tmp))
 
@@ -112,14 +113,16 @@ def cop_term(it, r):
 def step_term(r):
     it = Intern()
     op = cop_term(it, r)
-    return "(mkSC %s %s %s %d %s)" % (ldb(it, r["before"]), ldb(it, r["after"]), op, r["syncs"], cbool(r["impl_ok"]))
+    return "(mkSC %s %s %s %d %s)" % (ldb(it, r["before"]), ldb(it, r["after"]), op, r["commits"], cbool(r["impl_ok"]))
 
 
 def crash_term(r):
     it = Intern()
-    return "(mkCC %s %s %s %s %s %s %s %d %d)" % (
-        ldb(it, r["before"]), ldb(it, r["after"]), ldb(it, r.get("recovered") or []), cbool(r["eq_before"]), cbool(r["eq_after"]),
-        cbool(r["reopen_ok"]), cbool(r["next_ok"]), r["j"], r["syncs"])
+    before, after, rec = ldb(it, r["before"]), ldb(it, r["after"]), ldb(it, r.get("recovered") or [])
+    restore = "(Some (%d, %d))" % (r["h"], it.code("id:" + r["id"])) if r.get("rt") else "None"
+    return "(mkCC %s %s %s %s %s %s %s %d %d %d %s)" % (
+        before, after, rec, cbool(r["eq_before"]), cbool(r["eq_after"]),
+        cbool(r["reopen_ok"]), cbool(r["next_ok"]), r["j"], r["syncs"], r["first_wal"], restore)
 
 
 def evaluate(ck, recs):
@@ -132,7 +135,8 @@ def evaluate(ck, recs):
             continue
         for r, code in zip(rr, res):
             ck.count()
-            ck.nontrivial((kind, r["op"], r.get("j"), r["syncs"], r.get("eq_before"), r.get("eq_after"), len(r["after"]) // 8))
+            ck.nontrivial((kind, r["family"], r["op"], r.get("j"), r["syncs"], r.get("eq_before"), r.get("eq_after"),
+                           len(r["after"]) // 8, r.get("fin_jump", 0) >= 2, r.get("payload_bytes", 0) >> 20))
             if any(e["c"] == "unknown" for e in r["after"]):
                 ck.fail_case("c13:unknown-key", "database holds a key outside the known prefixes: %s" % r["after"], r)
             if code == 0:
@@ -140,29 +144,37 @@ def evaluate(ck, recs):
             spec_bad = code >= 2
             if kind == "step":
                 key = "c13:step:%s:%s" % (r["op"], "oracle" if spec_bad else "model")
-                what = ("step %d (%s, class %s): %d file syncs; %s" % (
-                    r["t"], r["op"], r["class"], r["syncs"],
+                what = ("scenario %s step %d (%s, class %s, payload %d bytes): %d durable commits, %d file syncs; %s" % (
+                    r["family"], r["t"], r["op"], r["class"], r.get("payload_bytes", 0), r["commits"], r["syncs"],
                     "more than one durable write, an inconsistent database after the step, or a rejected step that changed the database"
                     if spec_bad else "database after the step differs from the single batch the model predicts (or sync count differs)"))
             else:
                 key = "c13:crash:%s:%s" % (r["op"], "oracle" if spec_bad else "model")
-                what = ("crash inside step %d (%s) after %d of %d syncs: recovered database equals before=%s after=%s, reopen_ok=%s %s, "
+                what = ("scenario " + r["family"] + ": crash inside step %d (%s) after %d of %d syncs: recovered database equals before=%s after=%s, reopen_ok=%s %s, "
                         "next block accepted=%s %s — %s" % (
                             r["t"], r["op"], r["j"], r["syncs"], r["eq_before"], r["eq_after"], r["reopen_ok"], r.get("reopen_err", ""),
                             r["next_ok"], r.get("next_err", ""),
-                            "not crash-atomic / inconsistent" if spec_bad else "differs from the model's prediction for this boundary"))
-            small = dict(r)
+                            "not crash-atomic / inconsistent / block neither on chain nor in the temp table (keys differing from before: %s, "
+                            "from after: %s)" % (r.get("diff_before"), r.get("diff_after")) if spec_bad else "differs from the model's prediction for this boundary"))
+            small = {k: v for k, v in r.items() if k not in ("before", "after", "recovered")} if len(json.dumps(r)) > 200000 else dict(r)
             ck.failures.append(dict(kind="history", key=key, what=what, case=small, spec_violated=spec_bad,
                                     observed={k: r.get(k) for k in ("syncs", "eq_before", "eq_after", "reopen_ok", "next_ok", "class")},
                                     theorem_or_correspondence="Corr.C13.check_%s vs pkg/db on strict MemFS" % kind))
 
 
+def translate(ck):
+    ok1 = ck.translate("dbatomic", "Gen/DbAtomic.v")
+    ok2 = ck.translate("mutators", "Gen/Mutators.v")
+    return ok1 and ok2
+
+
 def run(ck):
+    translate(ck)
     ck.prove(extra_targets=["Corr/C13.vo"])
     binp = ck.go_build("c13")
     if not binp:
         return
-    args = ["-scenarios", "6", "-steps", "12"] if ck.tier == "quick" else ["-scenarios", "40", "-steps", "25"]
+    args = ["-scenarios", "8", "-steps", "12"] if ck.tier == "quick" else ["-scenarios", "48", "-steps", "25"]
     recs = ck.run_harness(binp, args, timeout=1500)
     if recs is None:
         return
@@ -170,18 +182,34 @@ def run(ck):
     st = [r for r in recs if r["k"] == "step"]
     cr = [r for r in recs if r["k"] == "crash"]
     if st:
-        ck.sample({k: st[0][k] for k in ("op", "syncs", "impl_ok", "class", "h")})
+        ck.sample({k: st[0][k] for k in ("family", "op", "commits", "syncs", "impl_ok", "class", "h", "payload_bytes")})
     if cr:
         ck.sample({k: cr[0][k] for k in ("op", "j", "syncs", "eq_before", "eq_after", "reopen_ok", "next_ok")})
-    ck.cov["rule"] = ("random scenarios (1-4 validators; valid blocks with/without payload, assets, events, slot gaps; invalid blocks; "
-                      "tip deletions with/without temp; refused deletions) on a real Executer over pebble on strict MemFS. Step cases: "
-                      "one per step. Crash cases: one per (step, sync boundary), every boundary enumerated (j = 0..syncs). Distinct = "
-                      "(kind, op, boundary, syncs, outcome, database size class)")
+    ck.cov["rule"] = ("scenario families on a real Executer over pebble on strict MemFS: random (1-4 validators; valid blocks with/without "
+                      "payload, assets, events, slot gaps; invalid blocks; tip deletions with/without temp; refused deletions), big "
+                      "(payload limit 8 MiB, blocks of 1.4-4.9 MiB, deleted with saveTemp and restored with removeTemp), restore (delete "
+                      "tips with saveTemp, re-apply from the temp table with removeTemp), jump (weights 1 and 3: finality jumps of several "
+                      "heights, diff pruning). Step cases: one per step (durable commits = records appended to the write-ahead log). "
+                      "Crash cases: one per (step, file-sync boundary), every boundary enumerated. Distinct = (kind, family, op, "
+                      "boundary, syncs, outcome, database size class, finality jump >= 2, payload MiB)")
     ck.cov["exhaustive"] = True
     ck.extra["exhaustive_domain"] = "all file-sync boundaries inside every step of the generated scenarios"
     ck.extra["crash_points"] = len(cr)
     ck.extra["steps"] = len(st)
     ck.extra["max_syncs_in_a_step"] = max([r["syncs"] for r in st] or [0])
+    ck.extra["max_payload_bytes"] = max([r.get("payload_bytes", 0) for r in st] or [0])
+    ck.extra["max_finality_jump"] = max([r.get("fin_jump", 0) for r in st] or [0])
+    ck.extra["restore_steps"] = sum(1 for r in st if r["op"] == "restore")
+    ck.extra["restore_crash_points"] = sum(1 for r in cr if r["op"] == "restore")
+    # the generator must keep producing the cases the seeded changes needed
+    for name, ok in (("a block whose batch exceeds 1 MiB", ck.extra["max_payload_bytes"] > (1 << 20)),
+                     ("a finality jump of at least 2 heights", ck.extra["max_finality_jump"] >= 2),
+                     ("a restore from the temp table (removeTemp)", ck.extra["restore_steps"] > 0)):
+        ck.obligations += 1
+        if ok:
+            ck.discharged += 1
+        else:
+            ck.fail_obligation("generator:" + name, "the scenario generator did not produce " + name)
     ck.extra["traces_validated_against_impl"] = len(recs)
     ck.assume += ["pebble Apply(batch, Sync) is atomic and durable (modelled as one action; sampled by the fault enumeration)",
                   "crash = loss of all unsynced file data and directory entries; torn/reordered writes below the sync granularity are "
@@ -198,12 +226,13 @@ def replay(ck, path):
         print("replay names a broken obligation, no input: %s" % doc.get("what"))
         run(ck)
         return ck.finish(LEVEL)
+    translate(ck)
     ck.prove(extra_targets=["Corr/C13.vo"])
     print("recorded case: %s" % json.dumps({k: case.get(k) for k in ("k", "scenario", "t", "op", "j", "syncs", "eq_before", "eq_after")}))
     ck.seed = doc.get("seed", ck.seed)
     binp = ck.go_build("c13")
     if binp:
-        recs = ck.run_harness(binp, ["-scenarios", "6", "-steps", "12"], out_name="replay.jsonl", timeout=1500)
+        recs = ck.run_harness(binp, ["-scenarios", "8", "-steps", "12"], out_name="replay.jsonl", timeout=1500)
         if recs is not None:
             same = [r for r in recs if r["k"] == case["k"] and r["scenario"] == case["scenario"] and r["t"] == case["t"]
                     and r.get("j") == case.get("j")]
